@@ -175,6 +175,15 @@ def run(ctx, replay=None):
         t['cfg']['routines'] = rt
         traces.append(t)
 
+    # 7. state of the application PACKAGE (process-global, e.g. the VM configuration) must not leak from queries into
+    #    block execution: a replica that answers contract-call queries between the blocks vs. a replica in a process
+    #    of its own that answers none, on chains whose blocks reach the admin precompile through the Admin contract
+    traces.append(hand_trace('query-then-admin', [[atx('create', 1, 0)], [atx('admok', 2, 0)], [atx('admok', 1, 1), atx('call', 2, 1)]], ()))
+    for t in traces:
+        if any(s['a'] == 'Execute' and any(x['c'] == 'admok' for x in s['args'][0]) for s in t['steps']):
+            t['cfg']['isolated_reference'] = True
+    ctx.cov['isolated_reference_traces'] = sum(1 for t in traces if t['cfg'].get('isolated_reference'))
+
     # binding self-test
     probe = None
     for t in traces:
